@@ -134,6 +134,16 @@ let () = iter_lines (fun line ->
       let nm = List.length (List.filter (function EMalloc _ -> true | _ -> false) h.trace) in
       Printf.printf "tjinit ok=%d n=%d live=%d badfree=%s hd=%d\n" (if ok then 1 else 0) nm (List.length h.live) (dec_of_z h.badfree)
         (if tjinit_handler_destroys then 1 else 0)
+  | "destbuf" :: api :: script ->
+      (* destination-buffer protocol with the configuration found in the source; one token per image:
+         <L|C|R><grows><F|T|J|I><f|k> *)
+      let call tok =
+        let m = (match tok.[0] with 'L' -> MLib | 'C' -> MCaller | _ -> MReuse) in
+        let g = nat_of_int (Char.code tok.[1] - 48) in
+        let e = (match tok.[2] with 'F' -> EFinish | 'T' -> EThrow | 'J' -> ELongjmp | _ -> EInitFail) in
+        { c_mode = m; c_grows = g; c_exit = e; c_free_after = (tok.[3] = 'f') } in
+      let s = final (if api = "tj" then dcfg_tj else dcfg_ljpeg) (List.map call script) in
+      Printf.printf "destbuf leak=%d badfree=%s stolen=%s\n" (List.length s.b_live) (dec_of_z s.b_badfree) (dec_of_z s.b_stolen)
   | [ "pix"; w; h; lim ] ->
       print_endline (if pixels_rejected_src (z_of_dec w) (z_of_dec h) (z_of_dec lim) then "pix reject" else "pix accept")
   | [ "scan"; n; lim ] ->
